@@ -1,7 +1,8 @@
 -------------------------------- MODULE Sleep --------------------------------
 \* Sleep / wake logic of MuJoCo (src/engine/engine_sleep.c) as driven by ONE mj_step with mjENBL_SLEEP:
 \*
-\*   env      the user acts (changes qpos / qvel / applied force of one tree, or moves the mocap body onto a tree),
+\*   env      the user acts (changes qpos / qvel / applied force of one tree, or moves the mocap body - or a jointless
+\*            body it carries - onto a tree),
 \*            one contact between trees appears or disappears, one equality is (de)activated
 \*   wake     mj_kinematics: mj_wake            - perturbed sleeping trees wake with their island, fully awake
 \*   collide  mj_fwdPosition: mj_wakeCollision  - sweep over the first-pass contacts (pairs with an awake body) using
@@ -23,19 +24,21 @@ CONSTANTS Eqs,        \* sequence of equalities <<x, y>>, x, y \in Trees \cup {W
           Never,      \* trees whose sleep policy is "never"
           NoIslands,  \* TRUE: mjDSBL_ISLAND (constraints without island structure: nothing may sleep)
           InitVals,   \* countdown values of the initial states
-          Kinds       \* user actions explored, subset of {"qpos", "qvel", "force", "mocap"}
+          Kinds       \* user actions explored, subset of {"qpos", "qvel", "force", "mocap", "carried"}
+                      \* ("carried": the user moves the mocap body so that a geom of its jointless CHILD touches a tree)
 
 VARIABLES ta,      \* mjData.tree_asleep
           geo,     \* set of tree pairs {x, y} whose geoms touch
           eqact,   \* eqact[k] : equality k is active (mjData.eq_active)
           user,    \* what the user did before this step
           frc,     \* tree with a non-zero applied force during this step (NoTree if none)
-          mtouch,  \* tree touched by the mocap body during this step (NoTree if none)
+          mtouch,  \* [t, via]: tree touched during this step by the mocap body / a body it carries (t = NoTree if none)
           phase, ev
 vars == <<ta, geo, eqact, user, frc, mtouch, phase, ev>>
 
 Pairs   == {p \in SUBSET Trees : Cardinality(p) = 2}
 NoUser  == [k |-> "none", t |-> NoTree]
+NoTouch == [t |-> NoTree, via |-> Mocap]
 Users   == {NoUser} \cup [k : Kinds, t : Trees]
 Toggles == {<<"none", 0, 0>>} \cup {<<"geo", x, y>> : x, y \in Trees} \cup {<<"eq", k, 0>> : k \in 1..Len(Eqs)}
 IsTree(z) == z \in Trees
@@ -49,7 +52,7 @@ ConStep(a, st, c) ==
   IF ~IsTree(x) \/ ~IsTree(y)
   THEN LET t == IF IsTree(x) THEN x ELSE y
            b == IF IsTree(x) THEN y ELSE x
-       IN IF IsTree(t) /\ ~st[t] /\ b = Mocap THEN WakeIsland(a, t, KAwake) ELSE a
+       IN IF IsTree(t) /\ ~st[t] /\ BodyClass(b) = "mocap-carried" THEN WakeIsland(a, t, KAwake) ELSE a
   ELSE IF st[x] = st[y] THEN a        \* both awake: nothing to do (both asleep: removed by the collision filter)
   ELSE LET sl == IF st[x] THEN y ELSE x
            aw == IF st[x] THEN x ELSE y
@@ -57,12 +60,12 @@ ConStep(a, st, c) ==
 RECURSIVE ConFold(_, _, _, _)
 ConFold(a, st, s, k) == IF k > Len(s) THEN a ELSE ConFold(ConStep(a, st, s[k]), st, s, k + 1)
 \* the collision filter: a pair is examined only if one of its bodies is awake (mocap: always, world: never)
-BodyAwake(st, z) == IF IsTree(z) THEN st[z] ELSE z = Mocap
+BodyAwake(st, z) == IF IsTree(z) THEN st[z] ELSE BodyClass(z) = "mocap-carried"
 FirstPass(s, st) == SelectSeq(s, LAMBDA c : BodyAwake(st, c[1]) \/ BodyAwake(st, c[2]))
 
 \* mj_wakeEquality, one active equality <<x, y>>
 SleepStateOf(st, z) == IF IsTree(z) THEN (IF st[z] THEN "awake" ELSE "asleep")
-                       ELSE IF z = Mocap THEN "awake" ELSE "static"
+                       ELSE IF BodyClass(z) = "mocap-carried" THEN "awake" ELSE "static"
 EqStep(a, st, e) ==
   LET x == e[1]  y == e[2]  s1 == SleepStateOf(st, x)  s2 == SleepStateOf(st, y) IN
   IF s1 # "asleep" /\ s2 # "asleep" THEN a
@@ -110,13 +113,14 @@ ZeroVelOK(after, nzv) == \A t \in Trees : after[t] >= 0 => t \notin nzv
 \* ---------------------------------------------------------------------------------------------------------------
 Init == /\ ta \in [Trees -> InitVals] /\ geo = {}
         /\ eqact = [k \in 1..Len(Eqs) |-> FALSE]
-        /\ user = NoUser /\ frc = NoTree /\ mtouch = NoTree /\ phase = "env" /\ ev = [ph |-> "init"]
+        /\ user = NoUser /\ frc = NoTree /\ mtouch = NoTouch /\ phase = "env" /\ ev = [ph |-> "init"]
 
 Env(u, tg) ==
   /\ phase = "env"
   /\ user' = IF u.k \in {"qpos", "qvel", "force"} THEN u ELSE NoUser
   /\ frc' = IF u.k = "force" THEN u.t ELSE NoTree
-  /\ mtouch' = IF u.k = "mocap" THEN u.t ELSE NoTree
+  /\ mtouch' = IF u.k = "mocap" THEN [t |-> u.t, via |-> Mocap]
+               ELSE IF u.k = "carried" THEN [t |-> u.t, via |-> Carried] ELSE NoTouch
   /\ IF tg[1] = "geo"
      THEN /\ tg[2] < tg[3]
           \* a contact appears / disappears only if one of the trees can move (awake, or repositioned by the user)
@@ -145,7 +149,7 @@ PairSeq(S) == LET code == {SetMin(p) * NT + SetMax(p) : p \in S}
 Reverse(s) == [i \in 1..Len(s) |-> s[Len(s) + 1 - i]]
 AllContacts == [i \in 1..Len(SetToSeq(Ground)) |-> <<World, SetToSeq(Ground)[i]>>]
                \o PairSeq(geo)
-               \o (IF mtouch = NoTree THEN << >> ELSE << <<mtouch, Mocap>> >>)
+               \o (IF mtouch.t = NoTree THEN << >> ELSE << <<mtouch.t, mtouch.via>> >>)
 \* mj_wakeCollision over the given contact sequence (already filtered to the first pass)
 CollideCore(con) ==
   /\ phase = "collide"
@@ -155,7 +159,7 @@ CollideCore(con) ==
 Collide(rev) == /\ LET fp == FirstPass(AllContacts, Flags(ta)) IN
                    /\ rev => Len(fp) >= 2
                    /\ CollideCore(IF rev THEN Reverse(fp) ELSE fp)
-                /\ mtouch' = NoTree /\ UNCHANGED <<geo, eqact, user, frc>>
+                /\ mtouch' = NoTouch /\ UNCHANGED <<geo, eqact, user, frc>>
 
 WeqCore(es, act) ==
   /\ phase = "weq"
@@ -227,7 +231,8 @@ WakeOnTouch ==
   [][ev'.ph = "collide" => \A k \in 1..Len(ev'.con) :
         LET x == ev'.con[k][1]  y == ev'.con[k][2] IN
         /\ (IsTree(x) /\ IsTree(y)) => (ta'[x] < 0 /\ ta'[y] < 0)
-        /\ (IsTree(x) /\ y = Mocap) => ta'[x] < 0]_vars
+        /\ (IsTree(x) /\ BodyClass(y) = "mocap-carried") => ta'[x] < 0
+        /\ (IsTree(y) /\ BodyClass(x) = "mocap-carried") => ta'[y] < 0]_vars
 \* ... or is constrained to an awake tree (or to the mocap body, or to another sleeping island) by an active equality
 WakeOnEquality ==
   [][ev'.ph = "weq" => \A k \in 1..Len(Eqs) : eqact[k] =>
@@ -235,8 +240,8 @@ WakeOnEquality ==
         /\ (IsTree(x) /\ IsTree(y) /\ x # y) =>
               /\ (ta'[x] < 0) = (ta'[y] < 0)
               /\ ta'[x] >= 0 => Cycle(ta', x) = Cycle(ta', y)
-        /\ (IsTree(x) /\ y = Mocap) => ta'[x] < 0
-        /\ (IsTree(y) /\ x = Mocap) => ta'[y] < 0]_vars
+        /\ (IsTree(x) /\ BodyClass(y) = "mocap-carried") => ta'[x] < 0
+        /\ (IsTree(y) /\ BodyClass(x) = "mocap-carried") => ta'[y] < 0]_vars
 \* when mj_island runs no constraint couples an awake tree with a sleeping one (mj_sleep relies on it)
 NoMixedCoupling == phase = "sleep" => \A p \in geo \cup EqPairs : \A x, y \in p : (ta[x] < 0) = (ta[y] < 0)
 \* touching sleeping trees belong to the same island
@@ -251,8 +256,10 @@ MC_Eqs1  == << <<0, 1>> >>
 MC_Eqs2  == << <<0, 1>>, <<1, 2>> >>
 MC_Eqs3  == << <<1, 2>>, <<0, 1>>, <<2, Mocap>> >>
 MC_EqsW  == << <<0, 1>>, <<1, World>> >>
-Sim_Eqs  == << <<1, 2>>, <<0, 1>>, <<3, Mocap>>, <<2, World>> >>
-AllKinds == {"qpos", "qvel", "force", "mocap"}
+Sim_Eqs  == << <<1, 2>>, <<0, 1>>, <<3, Mocap>>, <<2, World>>, <<4, Carried2>> >>
+AllKinds == {"qpos", "qvel", "force", "mocap", "carried"}
+KindsC   == {"qpos", "qvel", "force", "carried"}
+KindsM   == {"qpos", "qvel", "force", "mocap"}
 FewKinds == {"qpos", "mocap"}
 Init_M1  == {-2}
 Init_M2  == {-3}
